@@ -41,6 +41,7 @@ def handle (line : String) : String :=
   | ["SECT", l, fuel, times] => StrainsWire.handleSECT l fuel times
   | "GS" :: mode :: args => GenState.handleGS mode args
   | ["LIFE", mode, objs, sig, hist] => Lifetime.handleLife mode objs sig hist
+  | "GSQ" :: mode :: args => GenState.handleGSQ mode args
   | _ => "bad-op"
 
 partial def loop (h : IO.FS.Stream) (out : IO.FS.Stream) : IO Unit := do
